@@ -1,7 +1,9 @@
 /-
-  Proofs/Mvp60LdLive.lean — package R60d (totality, work in progress): what makes the out-of-order pipeline of MVP-6.0 move on
+  Proofs/Mvp60LdLive.lean — package R60d (totality): what makes the out-of-order pipeline of MVP-6.0 move on
   straight-line programs with memory reads: the scoreboards hold no entry without an instruction in flight (`BackU`, the converse
-  of `BackO.sbW/sbR`), what waits in a bus buffer is due at the next `Connect`, every pending line is being fetched by a unit.
+  of `BackO.sbW/sbR`), what waits in a bus buffer is due at the next `Connect`, every pending line is being fetched by a unit
+  (`LiveU`); the measure `psiE` of the back end never grows in a unit's cycle and decreases unless the unit is idle or stalled
+  (`euCycle_liveO`, `eusCycle_liveO`, `eusBusy_liveO`, `wuCycle_liveO`).
 -/
 import MajoranaVerif.Proofs.Mvp60LdOk
 open GoInt
@@ -203,6 +205,11 @@ def StallR (s s' : State) (i : Nat) : Prop :=
   ∃ eu, s.eus[i]? = some eu ∧
     ((eu.co = .none ∧ s.executeBus.queue = []) ∨ (eu.co = .prepare ∧ (s.writeBus.canAdd = false ∨ s.pendings ≠ [])))
 
+theorem LiveU.of_eq {s s' : State} (hl : LiveU s) (h1 : s'.executeBus = s.executeBus) (h2 : s'.writeBus = s.writeBus)
+    (h3 : s'.cycles = s.cycles) (h4 : s'.ctx = s.ctx) (h5 : s'.eus = s.eus) (h6 : s'.pendings = s.pendings) : LiveU s' :=
+  ⟨by rw [h1, h3]; exact hl.xdue, by rw [h2, h3]; exact hl.wdue, by rw [h1, h2, h4, h5]; exact hl.backU,
+   fun p hp => by rw [h6] at hp; rw [h5]; exact hl.pmw p hp⟩
+
 /-- the unit's slot changes, the runner it holds and the line it fetches do not -/
 theorem LiveU.setUnit {s s' : State} {i : Nat} {eu eu' : ExecUnit} (hl : LiveU s) (hget : s.eus[i]? = some eu)
     (he : s'.eus = s.eus.set i eu') (hx : s'.executeBus = s.executeBus) (hw : s'.writeBus = s.writeBus)
@@ -227,5 +234,593 @@ theorem LiveU.setUnit {s s' : State} {i : Nat} {eu eu' : ExecUnit} (hl : LiveU s
         · rw [List.getElem?_eq_none h'] at hget; cases hget
       exact ⟨k, eu', by rw [he]; exact List.getElem?_set_self hil, by rw [hm]; exact hb⟩
     · exact ⟨k, euk, by rw [he, List.getElem?_set_ne (Ne.symm hki)]; exact hk, hb⟩
+
+theorem mem_set_none_of_ne {H : List (Option Runner)} {i k : Nat} {o : Option Runner} (hk : H[k]? = some o) (hne : k ≠ i) :
+    (H.set i none)[k]? = some o := by rw [List.getElem?_set_ne (Ne.symm hne)]; exact hk
+
+/-- **a unit executes the runner it holds**: the back end stays live, and its measure decreases -/
+theorem coRun_liveO (app : App) (a0 : Arch) (hp : ProgLd app a0) (c : Word) (sC s' : State) (nt i : Nat) (eu0 eu : ExecUnit)
+    (x : Runner) (out : EuOut) (h : RelOx app a0 c { sC with eus := sC.eus.set i eu0 } nt (some i)) (hi : i < sC.eus.length)
+    (hheld : heldAt eu0 = some x)
+    (hmem : ∀ j aj, ROk app c x j → seqL app j a0 = some aj → isMemType x.instr.instructionType = true →
+      (x.instr.memoryRead aj.ctx 0#32).mapM (Model.Seq.readMem a0.ctx.Memory) = some eu.memory)
+    (hl : LiveU { sC with eus := sC.eus.set i eu0 })
+    (hmw : ∀ b, mwBase eu0 = some b → ∀ p ∈ sC.pendings, p.1 ≠ b) (hw0 : 3 ≤ uw eu0)
+    (hr : coRun app sC i eu x = .ok (s', out)) :
+    LiveU s' ∧ EuKeepO sC s' ∧ psiE s' < psiE { sC with eus := sC.eus.set i eu0 } := by
+  have hsm := hp.small
+  have hslot : ((sC.eus.set i eu0).map heldAt)[i]? = some (some x) := held_slot' hi hheld
+  obtain ⟨j, hj, hok⟩ := h.back.hidx x (List.mem_of_getElem? hslot)
+  obtain ⟨St, hst⟩ := h.back.st
+  obtain ⟨aj, haj⟩ := seqIter_prefix app a0 nt St hst j (by omega)
+  obtain ⟨aj1, haj1⟩ := seqIter_prefix app a0 nt St hst (j + 1) (by omega)
+  have hnrj : NoRetBefore app j := h.reti.1.mono (by omega)
+  obtain ⟨f1, f2, f3, f4, f5⟩ := seq_facts app a0 hp j aj haj (hnrj.mono (by omega))
+  obtain ⟨i', bytes, e, hi', hby, he, _⟩ := seq_succ app a0 hp j aj aj1 haj f1 f2 hnrj haj1
+  have hii : i' = x.instr := by rw [hok.1.2] at hi'; simp only [Option.some.injEq] at hi'; exact hi'.symm
+  subst hii
+  have hsame : Proofs.Mvp4.SameRegs sC.ctx aj.ctx x.instr.readRegisters :=
+    ⟨h.back.ratS, f4, h.back.txS, f5, fun r hr hr0 => h.back.opsB x j aj (List.mem_of_getElem? hslot) hok haj r hr hr0⟩
+  have hrun : x.instr.run sC.ctx app.labels x.pc eu.memory 0#32 = x.instr.run aj.ctx app.labels aj.pc bytes 0#32 := by
+    rw [Proofs.Mvp4.run_congr x.instr (hp.nofwd _ (List.mem_of_getElem? hok.1.2)) hsame, f1, hok.1.1]
+    cases hm : isMemType x.instr.instructionType with
+    | true =>
+      have := hmem j aj hok haj hm
+      rw [f3] at hby
+      rw [hby] at this
+      simp only [Option.some.injEq] at this
+      rw [this]
+    | false => rw [run_nomem x.instr hm _ _ _ eu.memory, run_nomem x.instr hm _ _ _ bytes]
+  have hget0 : (sC.eus.set i eu0)[i]? = some eu0 := List.getElem?_set_self hi
+  have hpsi := psiU_set (sC.eus.set i eu0) i eu0 { eu with co := .none } hget0
+  rw [List.set_set] at hpsi
+  have huw : uw ({ eu with co := .none } : ExecUnit) = 0 := rfl
+  -- the units of the new state
+  have hpmw : ∀ (pend : List (Int × Int)), pend = sC.pendings →
+      ∀ p ∈ pend, ∃ (k : Nat) (euk : ExecUnit), (sC.eus.set i { eu with co := .none })[k]? = some euk ∧ mwBase euk = some p.1 := by
+    intro pend hpe p hp'
+    subst hpe
+    obtain ⟨k, euk, hk, hb⟩ := hl.pmw p hp'
+    have hk' : (sC.eus.set i eu0)[k]? = some euk := hk
+    by_cases hki : k = i
+    · subst hki
+      rw [hget0] at hk'; simp only [Option.some.injEq] at hk'; subst hk'
+      exact absurd rfl (hmw _ hb p hp')
+    · exact ⟨k, euk, by rw [List.getElem?_set_ne (Ne.symm hki)] at hk' ⊢; exact hk', hb⟩
+  have hHn : (sC.eus.set i { eu with co := .none }).map heldAt = ((sC.eus.set i eu0).map heldAt).set i none := by
+    rw [map_heldAt_set, map_heldAt_set, List.set_set]; rfl
+  rcases ldr_cases app hp.cls j x.instr hok.1.2 with hld | hisret
+  · obtain ⟨hmc, hret, hpcc⟩ := ld_run x.instr hld aj.ctx app.labels aj.pc bytes 0#32 e he
+    have hub : x.instr.instructionType.IsUnconditionalBranch = false := notJ_of_ld app hp.cls x.instr (List.mem_of_getElem? hok.1.2)
+    unfold coRun at hr
+    simp only [setEu, hrun, he, hret, hmc, hpcc, hub, Bool.false_eq_true, if_false, bind, Except.bind, pure, Except.pure,
+      Except.ok.injEq, Prod.mk.injEq] at hr
+    obtain ⟨rfl, rfl⟩ := hr
+    refine ⟨⟨hl.xdue, ?_, ?_, hpmw _ rfl⟩, ⟨rfl, rfl, rfl, rfl, rfl, rfl, rfl, rfl, rfl, rfl, rfl, rfl, rfl⟩, ?_⟩
+    · exact hl.wdue.add _
+    · show BackU sC.ctx sC.executeBus.inside ((sC.eus.set i { eu with co := .none }).map heldAt) (sC.writeBus.add _ sC.cycles).inside
+      rw [hHn, inside_add]
+      exact hl.backU.exec i x hslot _ rfl rfl
+    · simp only [psiE, inside_add, List.length_append, List.length_cons, List.length_nil]
+      omega
+  · obtain ⟨hrx, hwx, _, _, _, hrunr⟩ := ret_facts x.instr hisret
+    obtain ⟨e', he', hret', _, _⟩ := hrunr aj.ctx app.labels aj.pc bytes 0#32
+    rw [he] at he'; simp only [Except.ok.injEq] at he'; subst he'
+    unfold coRun at hr
+    simp only [setEu, hrun, he, hret', if_true, pure, Except.pure, Except.ok.injEq, Prod.mk.injEq] at hr
+    obtain ⟨rfl, rfl⟩ := hr
+    refine ⟨⟨hl.xdue, hl.wdue, ?_, hpmw _ rfl⟩, ⟨rfl, rfl, rfl, rfl, rfl, rfl, rfl, rfl, rfl, rfl, rfl, rfl, rfl⟩, ?_⟩
+    · show BackU sC.ctx sC.executeBus.inside ((sC.eus.set i { eu with co := .none }).map heldAt) sC.writeBus.inside
+      rw [hHn]
+      exact hl.backU.retire i x hslot hwx hrx
+    · simp only [psiE]
+      omega
+
+/-- a lookup that answers "the line is being fetched" has found a pending entry -/
+theorem l3_pending_ne {u : Model.Mmu.Mmu} {pend : List (Int × Int)} {mem flat : List Byte} (h : L3Ok u pend mem flat) (a0 : Word) (as : List Word)
+    (hok : Model.Mmu.loadOk 64 flat.length (a0 :: as) = true) (u' : Model.Mmu.Mmu) (pend' : List (Int × Int))
+    (hr : getFromL3 u pend (a0 :: as) = .ok (.pending, u', pend')) : pend ≠ [] := by
+  obtain ⟨h0, h1, _, hend⟩ := loadOk_spec hok a0 List.mem_cons_self
+  rcases resident_or_not (L := 64) (n := 16) (by decide) h.wf a0.toInt h0 with hres | hmiss
+  · obtain ⟨bytes, u2, e1, _⟩ := getFromL3_hit pend h.wf h.coh a0 as hok hres
+    rw [e1] at hr; cases hr
+  · rw [getFromL3_miss pend a0 as h0 hend hmiss] at hr
+    split at hr
+    · rename_i hany
+      intro hc; rw [hc] at hany; simp at hany
+    · cases hr
+
+/-- **a unit prepares the runner it holds**: the back end stays live; its measure decreases unless the unit has to wait for
+room on the write bus or for a line that is being fetched -/
+theorem coPrepare_liveO (app : App) (a0 : Arch) (hp : ProgLd app a0) (c : Word) (s s' : State) (nt i : Nat) (eu : ExecUnit)
+    (x : Runner) (out : EuOut) (h : RelOx app a0 c { s with eus := s.eus.set i eu } nt (some i)) (hi : i < s.eus.length)
+    (hco : eu.co = .prepare) (hrun : eu.runner = some x) (hl : LiveU { s with eus := s.eus.set i eu })
+    (hr : coPrepareRun app s i eu x = .ok (s', out)) :
+    LiveU s' ∧ EuKeepO s s' ∧
+    (psiE s' < psiE { s with eus := s.eus.set i eu } ∨
+      (s'.executeBus = s.executeBus ∧ s'.eus = s.eus.set i eu ∧ s'.writeBus = s.writeBus ∧ s'.pendings = s.pendings ∧
+        s'.ctx = s.ctx ∧ (s.writeBus.canAdd = false ∨ s.pendings ≠ []) ∧ out = .none)) := by
+  have hsm := hp.small
+  have hheld : heldAt eu = some x := by simp only [heldAt, hco, hrun]
+  have hslot : ((s.eus.set i eu).map heldAt)[i]? = some (some x) := held_slot' hi hheld
+  obtain ⟨j, hj, hok⟩ := h.back.hidx x (List.mem_of_getElem? hslot)
+  obtain ⟨St, hst⟩ := h.back.st
+  obtain ⟨aj, haj⟩ := seqIter_prefix app a0 nt St hst j (by omega)
+  have hnrj : NoRetBefore app j := h.reti.1.mono (by omega)
+  obtain ⟨f1, f2, f3, f4, f5⟩ := seq_facts app a0 hp j aj haj (hnrj.mono (by omega))
+  have hxm : x.instr ∈ app.instrs := List.mem_of_getElem? hok.1.2
+  have hub := notJ_of_ld app hp.cls x.instr hxm
+  have hcb := notCond_of_ld app hp.cls x.instr hxm
+  have hsame : Proofs.Mvp4.SameRegs s.ctx aj.ctx x.instr.readRegisters :=
+    ⟨h.back.ratS, f4, h.back.txS, f5, fun r hr hr0 => h.back.opsB x j aj (List.mem_of_getElem? hslot) hok haj r hr hr0⟩
+  have hget0 : (s.eus.set i eu)[i]? = some eu := List.getElem?_set_self hi
+  have hmw0 : mwBase eu = none := by simp only [mwBase, hco]
+  have huw : uw eu = 400 := by simp only [uw, hco]
+  have keep : ∀ (bu : BranchUnit) (u : Model.Mmu.Mmu) (pd : List (Int × Int)) (eu' : ExecUnit),
+      EuKeepO s { s with bu := bu, mmu := u, pendings := pd, eus := s.eus.set i eu' } :=
+    fun _ _ _ _ => ⟨rfl, rfl, rfl, rfl, rfl, rfl, rfl, rfl, rfl, rfl, rfl, rfl, rfl⟩
+  unfold coPrepareRun at hr
+  split at hr
+  · rename_i hcan
+    simp only [setEu, pure, Except.pure, Except.ok.injEq, Prod.mk.injEq] at hr
+    obtain ⟨rfl, rfl⟩ := hr
+    refine ⟨hl, ⟨rfl, rfl, rfl, rfl, rfl, rfl, rfl, rfl, rfl, rfl, rfl, rfl, rfl⟩, Or.inr ⟨rfl, rfl, rfl, rfl, rfl, Or.inl ?_, rfl⟩⟩
+    simpa using hcan
+  · simp only [buAssert, hub, hcb, Bool.false_eq_true, if_false] at hr
+    cases hm : isMemType x.instr.instructionType with
+    | false =>
+      simp only [memoryRead_nomem x.instr hm, List.isEmpty_nil, Bool.not_true, Bool.false_eq_true, if_false] at hr
+      obtain ⟨e1, e2, e3⟩ := coRun_liveO app a0 hp c { s with bu := { s.bu with toCheck := false }, fu := s.fu } s' nt i eu eu x out
+        (h.bu { s.bu with toCheck := false } s.fu rfl) hi hheld (fun _ _ _ _ hc => by rw [hm] at hc; cases hc)
+        (hl.of_eq rfl rfl rfl rfl rfl rfl) (fun b hb => by rw [hmw0] at hb; cases hb) (by omega) hr
+      exact ⟨e1, ⟨e2.fu, e2.du, e2.decodeBus, e2.controlBus, e2.cuPendings, e2.cycles, e2.wus, e2.xql, e2.xbl, e2.wql, e2.wbl,
+        e2.xbuf, e2.wq⟩, Or.inl e3⟩
+    | true =>
+      have hld : ldInstr x.instr = true := by
+        rcases ldr_cases app hp.cls j x.instr hok.1.2 with h1 | h1
+        · exact h1
+        · have := (ret_facts x.instr h1).2.2.1; rw [hm] at this; cases this
+      have hne := load_addrs_ne x.instr hld hm s.ctx 0#32
+      have haddr : x.instr.memoryRead s.ctx 0#32 = x.instr.memoryRead aj.ctx 0#32 :=
+        Proofs.Mvp4.memoryRead_congr x.instr (hp.nofwd _ hxm) hsame 0#32
+      simp only [hne, Bool.not_false, if_true, bind, Except.bind] at hr
+      have hlo := hp.loads j aj haj hnrj j x.instr f1 hok.1.2
+      rw [f3] at hlo
+      cases haddrs : x.instr.memoryRead aj.ctx 0#32 with
+      | nil => rw [haddr, haddrs] at hne; cases hne
+      | cons a1 as =>
+        rw [haddrs] at hlo
+        rw [haddr, haddrs] at hr
+        rcases l3_lookup h.l3 a1 as hlo with ⟨bytes, u', e1, e2, e3, e4⟩ | e1 | ⟨e1, e2⟩
+        · -- hit
+          simp only [e1, setEu, pure, Except.pure, Except.ok.injEq, Prod.mk.injEq] at hr
+          obtain ⟨rfl, rfl⟩ := hr
+          have hpsi := psiU_set (s.eus.set i eu) i eu { eu with memory := bytes, co := .l3wait (Gen.Latency.L3Access - 1) } hget0
+          rw [List.set_set] at hpsi
+          have hu2 : uw ({ eu with memory := bytes, co := .l3wait (Gen.Latency.L3Access - 1) } : ExecUnit) = 52 := by
+            simp only [uw]; decide
+          refine ⟨?_, keep _ _ _ _, Or.inl ?_⟩
+          · exact hl.setUnit (eu' := { eu with memory := bytes, co := .l3wait (Gen.Latency.L3Access - 1) })
+              hget0 (by simp only [List.set_set]) rfl rfl rfl rfl rfl rfl
+              (by simp only [heldAt, hco]) (by simp only [mwBase, hco])
+          · simp only [psiE]
+            omega
+        · -- the line is being fetched
+          have hpne := l3_pending_ne h.l3 a1 as hlo _ _ e1
+          simp only [e1, setEu, pure, Except.pure, Except.ok.injEq, Prod.mk.injEq] at hr
+          obtain ⟨rfl, rfl⟩ := hr
+          exact ⟨hl.of_eq rfl rfl rfl rfl rfl rfl, keep _ _ _ _, Or.inr ⟨rfl, rfl, rfl, rfl, rfl, Or.inr hpne, rfl⟩⟩
+        · -- miss: the line is announced
+          simp only [e1, setEu, pure, Except.pure, Except.ok.injEq, Prod.mk.injEq] at hr
+          obtain ⟨rfl, rfl⟩ := hr
+          have hpsi := psiU_set (s.eus.set i eu) i eu { eu with co := .memwait (Gen.Latency.MemoryAccess - 1) (a1 :: as) } hget0
+          rw [List.set_set] at hpsi
+          have hu2 : uw ({ eu with co := .memwait (Gen.Latency.MemoryAccess - 1) (a1 :: as) } : ExecUnit) = 311 := by
+            simp only [uw]; decide
+          refine ⟨⟨hl.xdue, hl.wdue, ?_, ?_⟩, keep _ _ _ _, Or.inl ?_⟩
+          · show BackU s.ctx s.executeBus.inside ((s.eus.set i { eu with co := .memwait (Gen.Latency.MemoryAccess - 1) (a1 :: as) }).map heldAt) s.writeBus.inside
+            have : (s.eus.set i { eu with co := .memwait (Gen.Latency.MemoryAccess - 1) (a1 :: as) }).map heldAt = (s.eus.set i eu).map heldAt := by
+              rw [map_heldAt_set, map_heldAt_set]
+              simp only [heldAt, hco, hrun]
+            rw [this]; exact hl.backU
+          · intro p hp'
+            have hp2 : p ∈ s.pendings ++ [(base 64 a1.toInt, base 64 a1.toInt + 64)] := hp'
+            rcases List.mem_append.mp hp2 with h1 | h1
+            · obtain ⟨k, euk, hk, hb⟩ := hl.pmw p h1
+              have hk' : (s.eus.set i eu)[k]? = some euk := hk
+              by_cases hki : k = i
+              · subst hki
+                rw [hget0] at hk'; simp only [Option.some.injEq] at hk'; subst hk'
+                rw [hmw0] at hb; cases hb
+              · exact ⟨k, euk, by
+                  show (s.eus.set i _)[k]? = some euk
+                  rw [List.getElem?_set_ne (Ne.symm hki)] at hk' ⊢; exact hk', hb⟩
+            · simp only [List.mem_singleton] at h1
+              subst h1
+              exact ⟨i, _, by show (s.eus.set i _)[i]? = some _; exact List.getElem?_set_self hi, by simp only [mwBase]⟩
+          · simp only [psiE]
+            omega
+
+theorem psiE_congr {s s' : State} (h1 : s'.executeBus.inside = s.executeBus.inside) (h2 : s'.eus = s.eus)
+    (h3 : s'.writeBus.inside = s.writeBus.inside) : psiE s' = psiE s := by
+  simp only [psiE, h1, h2, h3]
+
+/-- **one cycle of an execute unit**: the back end stays live, its measure does not grow, and it decreases unless the unit is
+idle with nothing readable on the execute bus, or holds a runner it cannot prepare yet -/
+theorem euCycle_liveO (app : App) (a0 : Arch) (hp : ProgLd app a0) (c : Word) (s s' : State) (nt i : Nat) (out : EuOut)
+    (h : RelO app a0 c s nt) (hl : LiveU s) (hi : i < s.eus.length) (hr : euCycle app s i = .ok (s', out)) :
+    LiveU s' ∧ EuKeepO s s' ∧ (psiE s' < psiE s ∨ (StallR s s' i ∧ out = .none)) := by
+  have hsm := hp.small
+  obtain ⟨eu, hget⟩ := get_lt s.eus i hi
+  have hself := state_set_self s i eu hget
+  have hx : RelOx app a0 c { s with eus := s.eus.set i eu } nt (some i) := by rw [hself]; exact h.open_ i
+  have hlx : LiveU { s with eus := s.eus.set i eu } := by rw [hself]; exact hl
+  have hpx : psiE { s with eus := s.eus.set i eu } = psiE s := by rw [hself]
+  have hu := h.units i eu hget (by simp)
+  unfold euCycle at hr
+  simp only [hget] at hr
+  cases hco : eu.co with
+  | none =>
+    simp only [hco] at hr
+    cases hq : s.executeBus.queue with
+    | nil =>
+      simp only [get_none _ hq, pure, Except.pure, Except.ok.injEq, Prod.mk.injEq] at hr
+      obtain ⟨rfl, rfl⟩ := hr
+      exact ⟨hl, EuKeepO.refl _, Or.inr ⟨⟨rfl, rfl, rfl, rfl, rfl, eu, hget, Or.inl ⟨hco, hq⟩⟩, rfl⟩⟩
+    | cons x q =>
+      simp only [get_some _ x q hq] at hr
+      obtain ⟨hT, hH, hxi⟩ := take_relO app a0 hp c s nt i eu x q h hi hget hco hq
+      have hxin : s.executeBus.inside = x :: ({ s.executeBus with queue := q } : BufferedBus Runner).inside := by
+        simp only [BufferedBus.inside, hq, List.cons_append]
+      -- the state after the take
+      have hlT : LiveU { s with executeBus := { s.executeBus with queue := q }, eus := s.eus.set i { eu with runner := some x, co := .prepare } } := by
+        refine ⟨hl.xdue, hl.wdue, ?_, ?_⟩
+        · show BackU s.ctx ({ s.executeBus with queue := q } : BufferedBus Runner).inside
+            ((s.eus.set i { eu with runner := some x, co := .prepare }).map heldAt) s.writeBus.inside
+          rw [map_heldAt_set]
+          have hb := hl.backU
+          rw [hxin] at hb
+          exact hb.take i hH
+        · intro p hp'
+          obtain ⟨k, euk, hk, hb⟩ := hl.pmw p hp'
+          by_cases hki : k = i
+          · subst hki
+            rw [hget] at hk; simp only [Option.some.injEq] at hk; subst hk
+            simp only [mwBase, hco] at hb; cases hb
+          · exact ⟨k, euk, by
+              show (s.eus.set i _)[k]? = some euk
+              rw [List.getElem?_set_ne (Ne.symm hki)]; exact hk, hb⟩
+      have hpT : psiE { s with executeBus := { s.executeBus with queue := q }, eus := s.eus.set i { eu with runner := some x, co := .prepare } } + 3 = psiE s := by
+        have hpsi := psiU_set s.eus i eu { eu with runner := some x, co := .prepare } hget
+        have h1 : uw eu = 0 := by simp only [uw, hco]
+        have h2 : uw ({ eu with runner := some x, co := .prepare } : ExecUnit) = 400 := rfl
+        simp only [psiE, hxin, List.length_cons]
+        omega
+      obtain ⟨e1, e2, e3⟩ := coPrepare_liveO app a0 hp c { s with executeBus := { s.executeBus with queue := q } } s' (nt + 1) i
+        { eu with runner := some x, co := .prepare } x out hT hi rfl rfl hlT hr
+      refine ⟨e1, ⟨e2.fu, e2.du, e2.decodeBus, e2.controlBus, e2.cuPendings, e2.cycles, e2.wus, e2.xql, e2.xbl, e2.wql, e2.wbl,
+        e2.xbuf, e2.wq⟩, Or.inl ?_⟩
+      rcases e3 with e3 | ⟨g1, g2, g3, _⟩
+      · have e3' : psiE s' < psiE { s with executeBus := { s.executeBus with queue := q }, eus := s.eus.set i { eu with runner := some x, co := .prepare } } := e3
+        omega
+      · have := psiE_congr (s' := s') (s := { s with executeBus := { s.executeBus with queue := q }, eus := s.eus.set i { eu with runner := some x, co := .prepare } })
+          (by rw [g1]) g2 (by rw [g3])
+        omega
+  | prepare =>
+    simp only [hco] at hr
+    unfold EuOk at hu
+    simp only [hco] at hu
+    obtain ⟨x, hxr⟩ := hu
+    simp only [hxr] at hr
+    obtain ⟨e1, e2, e3⟩ := coPrepare_liveO app a0 hp c s s' nt i eu x out hx hi hco hxr hlx hr
+    refine ⟨e1, e2, ?_⟩
+    rcases e3 with e3 | ⟨g1, g2, g3, g4, g5, g6, g7⟩
+    · exact Or.inl (by omega)
+    · exact Or.inr ⟨⟨g1, by rw [g2, set_self _ _ _ hget], g3, g4, g5, eu, hget, Or.inr ⟨hco, g6⟩⟩, g7⟩
+  | l3wait rem =>
+    simp only [hco] at hr
+    unfold EuOk at hu
+    simp only [hco] at hu
+    obtain ⟨x, j, aj, hxr, hok, haj, hby⟩ := hu
+    have hheld : heldAt eu = some x := by simp only [heldAt, hco, hxr]
+    split at hr
+    · rename_i hpos
+      simp only [setEu, pure, Except.pure, Except.ok.injEq, Prod.mk.injEq] at hr
+      obtain ⟨rfl, rfl⟩ := hr
+      have hpsi := psiU_set s.eus i eu { eu with co := .l3wait (rem - 1) } hget
+      have h1 : uw eu = 3 + rem.toNat := by simp only [uw, hco]
+      have h2 : uw ({ eu with co := .l3wait (rem - 1) } : ExecUnit) = 3 + (rem - 1).toNat := rfl
+      refine ⟨hl.setUnit (eu' := { eu with co := .l3wait (rem - 1) }) hget rfl rfl rfl rfl rfl rfl rfl
+          (by simp only [heldAt, hco]) (by simp only [mwBase, hco]),
+        ⟨rfl, rfl, rfl, rfl, rfl, rfl, rfl, rfl, rfl, rfl, rfl, rfl, rfl⟩, Or.inl ?_⟩
+      simp only [psiE]
+      omega
+    · simp only [hxr] at hr
+      obtain ⟨e1, e2, e3⟩ := coRun_liveO app a0 hp c s s' nt i eu eu x out hx hi hheld (fun j' aj' hok' haj' _ => by
+        have := ROk.idx_eq hsm hok' hok
+        subst this
+        rw [haj] at haj'; simp only [Option.some.injEq] at haj'; subst haj'
+        exact hby) hlx (fun b hb => by simp only [mwBase, hco] at hb; cases hb) (by simp only [uw, hco]; omega) hr
+      exact ⟨e1, e2, Or.inl (by omega)⟩
+  | memwait rem addrs =>
+    simp only [hco] at hr
+    unfold EuOk at hu
+    simp only [hco] at hu
+    obtain ⟨x, j, aj, a1, as, hxr, hok, haj, haddr, hcons, p, hpm, hpb⟩ := hu
+    have hheld : heldAt eu = some x := by simp only [heldAt, hco, hxr]
+    split at hr
+    · rename_i hpos
+      simp only [setEu, pure, Except.pure, Except.ok.injEq, Prod.mk.injEq] at hr
+      obtain ⟨rfl, rfl⟩ := hr
+      have hpsi := psiU_set s.eus i eu { eu with co := .memwait (rem - 1) addrs } hget
+      have h1 : uw eu = 3 + rem.toNat := by simp only [uw, hco]
+      have h2 : uw ({ eu with co := .memwait (rem - 1) addrs } : ExecUnit) = 3 + (rem - 1).toNat := rfl
+      refine ⟨hl.setUnit (eu' := { eu with co := .memwait (rem - 1) addrs }) hget rfl rfl rfl rfl rfl rfl rfl
+          (by simp only [heldAt, hco]) (by cases addrs <;> simp only [mwBase, hco]),
+        ⟨rfl, rfl, rfl, rfl, rfl, rfl, rfl, rfl, rfl, rfl, rfl, rfl, rfl⟩, Or.inl ?_⟩
+      simp only [psiE]
+      omega
+    · subst hcons
+      simp only [hxr, bind, Except.bind] at hr
+      have hjnt : j < nt := by
+        obtain ⟨j', hj', hok'⟩ := h.back.hidx x (List.mem_of_getElem? (held_slot hget hheld))
+        have := ROk.idx_eq hsm hok' hok
+        omega
+      have hnrj : NoRetBefore app j := h.reti.1.mono (by omega)
+      obtain ⟨f1, f2, f3, f4, f5⟩ := seq_facts app a0 hp j aj haj (hnrj.mono (by omega))
+      have hlo := hp.loads j aj haj hnrj j x.instr f1 hok.1.2
+      rw [f3, ← haddr] at hlo
+      obtain ⟨line, u1, mem1, bytes, u2, g1, g2, g3, g6, h1⟩ := fill_relO app a0 c s nt i eu x rem a1 as h hget hco hxr hlo ⟨p, hpm, hpb⟩
+      simp only [g1, g2, g3] at hr
+      have heq : ({ co := EuCo.memwait rem (a1 :: as), memory := bytes, runner := some x } : ExecUnit) = { eu with memory := bytes } := by
+        cases eu; simp only at hco hxr; subst hco; subst hxr; rfl
+      rw [heq] at hr
+      have hne := removePending_ne (base 64 a1.toInt) s.pendings h.l3.pdist ⟨p, hpm, hpb⟩
+      have hl2 : LiveU { s with mmu := u2, pendings := removePending (base 64 a1.toInt) s.pendings, ctx := { s.ctx with Memory := mem1 }, eus := s.eus.set i eu } := by
+        refine ⟨hl.xdue, hl.wdue, ?_, ?_⟩
+        · show BackU { s.ctx with Memory := mem1 } s.executeBus.inside ((s.eus.set i eu).map heldAt) s.writeBus.inside
+          rw [set_self _ _ _ hget]
+          exact hl.backU.congr_ctx _ rfl rfl
+        · intro q hq
+          have hq' : q ∈ removePending (base 64 a1.toInt) s.pendings := hq
+          obtain ⟨k, euk, hk, hb⟩ := hl.pmw q ((removePending_sublist _ _).subset hq')
+          exact ⟨k, euk, by show (s.eus.set i eu)[k]? = some euk; rw [set_self _ _ _ hget]; exact hk, hb⟩
+      obtain ⟨e1, e2, e3⟩ := coRun_liveO app a0 hp c { s with mmu := u2, pendings := removePending (base 64 a1.toInt) s.pendings, ctx := { s.ctx with Memory := mem1 } } s' nt i eu { eu with memory := bytes } x out h1 hi hheld
+        (fun j' aj' hok' haj' _ => by
+          have := ROk.idx_eq hsm hok' hok
+          subst this
+          rw [haj] at haj'; simp only [Option.some.injEq] at haj'; subst haj'
+          rw [← haddr]; exact g6) hl2
+        (fun b hb q hq => by
+          simp only [mwBase, hco, Option.some.injEq] at hb
+          subst hb
+          exact hne q hq) (by simp only [uw, hco]; omega) hr
+      refine ⟨e1, ⟨e2.fu, e2.du, e2.decodeBus, e2.controlBus, e2.cuPendings, e2.cycles, e2.wus, e2.xql, e2.xbl, e2.wql, e2.wbl,
+        e2.xbuf, e2.wq⟩, Or.inl ?_⟩
+      have := psiE_congr (s' := { s with mmu := u2, pendings := removePending (base 64 a1.toInt) s.pendings, ctx := { s.ctx with Memory := mem1 }, eus := s.eus.set i eu }) (s := s)
+        rfl (set_self _ _ _ hget) rfl
+      have e3' : psiE s' < psiE { s with mmu := u2, pendings := removePending (base 64 a1.toInt) s.pendings, ctx := { s.ctx with Memory := mem1 }, eus := s.eus.set i eu } := e3
+      omega
+
+/-- why no unit of `i … i+n-1` made progress -/
+def StallAll (s s' : State) (i n : Nat) : Prop :=
+  s'.executeBus = s.executeBus ∧ s'.eus = s.eus ∧ s'.writeBus = s.writeBus ∧ s'.pendings = s.pendings ∧ s'.ctx = s.ctx ∧
+  ∀ k, i ≤ k → k < i + n → ∃ eu, s.eus[k]? = some eu ∧
+    ((eu.co = .none ∧ s.executeBus.queue = []) ∨ (eu.co = .prepare ∧ (s.writeBus.canAdd = false ∨ s.pendings ≠ [])))
+
+theorem psiE_of_stall {s s' : State} (h1 : s'.executeBus = s.executeBus) (h2 : s'.eus = s.eus) (h3 : s'.writeBus = s.writeBus) :
+    psiE s' = psiE s := psiE_congr (by rw [h1]) h2 (by rw [h3])
+
+/-- the loop over the execute units: the back end stays live; its measure decreases unless every unit is idle or stalled -/
+theorem eusCycle_liveO (app : App) (a0 : Arch) (hp : ProgLd app a0) (c : Word) : ∀ (n i : Nat) (s s' : State) (acc acc' : EuAcc) (nt : Nat),
+    i + n = s.eus.length → RelO app a0 c s nt → LiveU s → eusCycle app n i s acc = .ok (s', acc') →
+    LiveU s' ∧ EuKeepO s s' ∧ (psiE s' < psiE s ∨ (StallAll s s' i n ∧ acc'.ret = acc.ret)) := by
+  intro n
+  induction n with
+  | zero =>
+    intro i s s' acc acc' nt _ h hl hr
+    simp only [eusCycle, pure, Except.pure, Except.ok.injEq, Prod.mk.injEq] at hr
+    obtain ⟨rfl, rfl⟩ := hr
+    exact ⟨hl, EuKeepO.refl _, Or.inr ⟨⟨rfl, rfl, rfl, rfl, rfl, fun k h1 h2 => by omega⟩, rfl⟩⟩
+  | succ n ih =>
+    intro i s s' acc acc' nt hlen h hl hr
+    simp only [eusCycle, bind, Except.bind] at hr
+    split at hr
+    · cases hr
+    · rename_i v hv
+      obtain ⟨s1, out⟩ := v
+      obtain ⟨nt1, _, h1, _, hpost⟩ := euCycle_simO app a0 hp c s s1 nt i out h (by omega) hv
+      obtain ⟨l1, k1, p1⟩ := euCycle_liveO app a0 hp c s s1 nt i out h hl (by omega) hv
+      have hl' := euCycle_len app s s1 i _ hv
+      have key : ∀ acc1, eusCycle app n (i + 1) s1 acc1 = .ok (s', acc') → (out = .none → acc1 = acc) →
+          LiveU s' ∧ EuKeepO s s' ∧ (psiE s' < psiE s ∨ (StallAll s s' i (n + 1) ∧ acc'.ret = acc.ret)) := by
+        intro acc1 hr1 hacc1
+        obtain ⟨l2, k2, p2⟩ := ih (i + 1) s1 s' acc1 acc' nt1 (by omega) h1 l1 hr1
+        refine ⟨l2, k1.trans k2, ?_⟩
+        rcases p1 with p1 | ⟨⟨a1, a2, a3, a4, a5, eu, a6, a7⟩, a8⟩
+        · left
+          rcases p2 with p2 | ⟨⟨b1, b2, b3, _⟩, _⟩
+          · omega
+          · have := psiE_of_stall b1 b2 b3; omega
+        · rcases p2 with p2 | ⟨⟨b1, b2, b3, b4, b5, b6⟩, b7⟩
+          · left; have := psiE_of_stall a1 a2 a3; omega
+          · right
+            refine ⟨⟨b1.trans a1, b2.trans a2, b3.trans a3, b4.trans a4, b5.trans a5, ?_⟩, by rw [b7, hacc1 a8]⟩
+            intro k hk1 hk2
+            rcases Nat.lt_or_ge i k with hgt | hle
+            · obtain ⟨euk, e1, e2⟩ := b6 k (by omega) (by omega)
+              rw [a2] at e1
+              rw [a1, a3, a4] at e2
+              exact ⟨euk, e1, e2⟩
+            · have : k = i := by omega
+              subst this
+              exact ⟨eu, a6, a7⟩
+      rcases hpost with ⟨rfl, _⟩ | ⟨rfl, _⟩
+      · simp only at hr; exact key _ hr (fun _ => rfl)
+      · simp only at hr; exact key _ hr (fun hc => by cases hc)
+
+/-- the loop over the busy execute units while the machine drains after a `ret` -/
+theorem eusBusy_liveO (app : App) (a0 : Arch) (hp : ProgLd app a0) (c : Word) : ∀ (n i : Nat) (s s' : State) (e : Bool) (nt : Nat),
+    i + n = s.eus.length → RelO app a0 c s nt → LiveU s → eusCycleBusy app n i s = .ok (s', e) →
+    LiveU s' ∧ EuKeepO s s' ∧ (psiE s' < psiE s ∨
+      (s'.executeBus = s.executeBus ∧ s'.eus = s.eus ∧ s'.writeBus = s.writeBus ∧ s'.pendings = s.pendings ∧ s'.ctx = s.ctx ∧
+        ∀ k, i ≤ k → k < i + n → ∃ eu, s.eus[k]? = some eu ∧
+          (eu.co = .none ∨ (eu.co = .prepare ∧ (s.writeBus.canAdd = false ∨ s.pendings ≠ []))))) := by
+  intro n
+  induction n with
+  | zero =>
+    intro i s s' e nt _ h hl hr
+    simp only [eusCycleBusy, pure, Except.pure, Except.ok.injEq, Prod.mk.injEq] at hr
+    obtain ⟨rfl, rfl⟩ := hr
+    exact ⟨hl, EuKeepO.refl _, Or.inr ⟨rfl, rfl, rfl, rfl, rfl, fun k h1 h2 => by omega⟩⟩
+  | succ n ih =>
+    intro i s s' e nt hlen h hl hr
+    obtain ⟨eu, hget⟩ := get_lt s.eus i (by omega)
+    simp only [eusCycleBusy, hget, bind, Except.bind] at hr
+    split at hr
+    · rename_i hemp
+      obtain ⟨l2, k2, p2⟩ := ih (i + 1) s s' e nt (by omega) h hl hr
+      refine ⟨l2, k2, ?_⟩
+      rcases p2 with p2 | ⟨b1, b2, b3, b4, b5, b6⟩
+      · exact Or.inl p2
+      · right
+        refine ⟨b1, b2, b3, b4, b5, ?_⟩
+        intro k hk1 hk2
+        rcases Nat.lt_or_ge i k with hgt | hle
+        · exact b6 k (by omega) (by omega)
+        · have : k = i := by omega
+          subst this
+          exact ⟨eu, hget, Or.inl (by simpa [ExecUnit.isEmpty] using hemp)⟩
+    · rename_i hbusy
+      split at hr
+      · cases hr
+      · rename_i v hv
+        obtain ⟨s1, out⟩ := v
+        obtain ⟨nt1, _, h1, _, hpost⟩ := euCycle_simO app a0 hp c s s1 nt i out h (by omega) hv
+        obtain ⟨l1, k1, p1⟩ := euCycle_liveO app a0 hp c s s1 nt i out h hl (by omega) hv
+        have hl' := euCycle_len app s s1 i _ hv
+        have key : eusCycleBusy app n (i + 1) s1 = .ok (s', e) → _ := fun hr1 => ih (i + 1) s1 s' e nt1 (by omega) h1 l1 hr1
+        have hr1 : eusCycleBusy app n (i + 1) s1 = .ok (s', e) := by
+          rcases hpost with ⟨rfl, _⟩ | ⟨rfl, _⟩
+          · simpa using hr
+          · simpa using hr
+        obtain ⟨l2, k2, p2⟩ := key hr1
+        refine ⟨l2, k1.trans k2, ?_⟩
+        rcases p1 with p1 | ⟨⟨a1, a2, a3, a4, a5, eu', a6, a7⟩, _⟩
+        · left
+          rcases p2 with p2 | ⟨b1, b2, b3, _⟩
+          · omega
+          · have := psiE_of_stall b1 b2 b3; omega
+        · rcases p2 with p2 | ⟨b1, b2, b3, b4, b5, b6⟩
+          · left; have := psiE_of_stall a1 a2 a3; omega
+          · right
+            refine ⟨b1.trans a1, b2.trans a2, b3.trans a3, b4.trans a4, b5.trans a5, ?_⟩
+            intro k hk1 hk2
+            rcases Nat.lt_or_ge i k with hgt | hle
+            · obtain ⟨euk, e1, e2⟩ := b6 k (by omega) (by omega)
+              rw [a2] at e1
+              rw [a3, a4] at e2
+              exact ⟨euk, e1, e2⟩
+            · have : k = i := by omega
+              subst this
+              refine ⟨eu', a6, ?_⟩
+              rcases a7 with ⟨a7, _⟩ | a7
+              · exact Or.inl a7
+              · exact Or.inr a7
+
+/-- what a cycle of a write unit leaves alone -/
+structure WuKeepO (s s' : State) : Prop where
+  fu : s'.fu = s.fu
+  du : s'.du = s.du
+  decodeBus : s'.decodeBus = s.decodeBus
+  controlBus : s'.controlBus = s.controlBus
+  cuPendings : s'.cuPendings = s.cuPendings
+  cycles : s'.cycles = s.cycles
+  wus : s'.wus = s.wus
+  executeBus : s'.executeBus = s.executeBus
+  eus : s'.eus = s.eus
+  pendings : s'.pendings = s.pendings
+  wql : s'.writeBus.queueLength = s.writeBus.queueLength
+  wbl : s'.writeBus.bufferLength = s.writeBus.bufferLength
+  wbuf : s'.writeBus.buffer = s.writeBus.buffer
+
+theorem WuKeepO.refl (s : State) : WuKeepO s s := ⟨rfl, rfl, rfl, rfl, rfl, rfl, rfl, rfl, rfl, rfl, rfl, rfl, rfl⟩
+
+theorem WuKeepO.trans {a b c : State} (h1 : WuKeepO a b) (h2 : WuKeepO b c) : WuKeepO a c :=
+  ⟨h2.fu.trans h1.fu, h2.du.trans h1.du, h2.decodeBus.trans h1.decodeBus, h2.controlBus.trans h1.controlBus,
+   h2.cuPendings.trans h1.cuPendings, h2.cycles.trans h1.cycles, h2.wus.trans h1.wus, h2.executeBus.trans h1.executeBus,
+   h2.eus.trans h1.eus, h2.pendings.trans h1.pendings, h2.wql.trans h1.wql, h2.wbl.trans h1.wbl, h2.wbuf.trans h1.wbuf⟩
+
+/-- **a write unit**: it takes the oldest result off the write bus when one is readable -/
+theorem wuCycle_liveO (app : App) (a0 : Arch) (hp : ProgLd app a0) (c : Word) (s s' : State) (nt j : Nat) (hj : j < s.wus.length)
+    (h : RelO app a0 c s nt) (hl : LiveU s) (hr : wuCycle s j (BitVec.ofInt 32 (-1)) = .ok s') :
+    LiveU s' ∧ WuKeepO s s' ∧ psiE s' ≤ psiE s ∧ s'.writeBus.queue = s.writeBus.queue.tail ∧
+      (s.writeBus.queue ≠ [] → psiE s' < psiE s) := by
+  obtain ⟨wu, hget⟩ := get_lt s.wus j hj
+  have hco := h.wus wu (List.mem_of_getElem? hget)
+  unfold wuCycle at hr
+  simp only [hget, hco] at hr
+  cases hq : s.writeBus.queue with
+  | nil =>
+    simp only [get_none _ hq, pure, Except.pure, Except.ok.injEq] at hr
+    subst hr
+    exact ⟨hl, WuKeepO.refl _, Nat.le_refl _, by simp [hq], fun hc => absurd rfl hc⟩
+  | cons ec q =>
+    simp only [get_some _ ec q hq, bne_self_eq_false, Bool.false_and, Bool.false_eq_true, if_false] at hr
+    have hin : s.writeBus.inside = ec :: ({ s.writeBus with queue := q } : BufferedBus ExecCtx).inside := by
+      simp only [BufferedBus.inside, hq, List.cons_append]
+    have hnm : ec.execution.MemoryChange = false := relO_nomem hp h ec (by rw [hin]; exact List.mem_cons_self)
+    have hb := hl.backU
+    rw [hin] at hb
+    have key : ∀ ctx' : Model.Context, ctx' = deletePendingRegisters
+        (if ec.execution.RegisterChange then Model.Seq.writeRegister s.ctx ec.execution else s.ctx) ec.readRegisters ec.writeRegisters →
+        LiveU { s with writeBus := { s.writeBus with queue := q }, ctx := ctx' } ∧
+        WuKeepO s { s with writeBus := { s.writeBus with queue := q }, ctx := ctx' } ∧
+        psiE { s with writeBus := { s.writeBus with queue := q }, ctx := ctx' } < psiE s := by
+      intro ctx' hc'
+      subst hc'
+      refine ⟨⟨hl.xdue, hl.wdue, hb.writeback, hl.pmw⟩, ⟨rfl, rfl, rfl, rfl, rfl, rfl, rfl, rfl, rfl, rfl, rfl, rfl, rfl⟩, ?_⟩
+      simp only [psiE, hin, List.length_cons]
+      omega
+    split at hr
+    · rename_i hrc
+      simp only [pure, Except.pure, Except.ok.injEq] at hr
+      subst hr
+      obtain ⟨k1, k2, k3⟩ := key (deletePendingRegisters (Model.Seq.writeRegister s.ctx ec.execution) ec.readRegisters ec.writeRegisters)
+        (by simp only [hrc, if_true])
+      exact ⟨k1, k2, Nat.le_of_lt k3, rfl, fun _ => k3⟩
+    · rename_i hrc
+      simp only [hnm, Bool.false_eq_true, if_false, pure, Except.pure, Except.ok.injEq] at hr
+      subst hr
+      obtain ⟨k1, k2, k3⟩ := key (deletePendingRegisters s.ctx ec.readRegisters ec.writeRegisters)
+        (by simp only [hrc, Bool.false_eq_true, if_false])
+      exact ⟨k1, k2, Nat.le_of_lt k3, rfl, fun _ => k3⟩
+
+theorem wus_liveO (app : App) (a0 : Arch) (hp : ProgLd app a0) (c : Word) (nt : Nat) : ∀ (n i : Nat) (s s' : State), i + n = s.wus.length →
+    RelO app a0 c s nt → LiveU s → (List.range' i n).foldlM (fun s j => wuCycle s j (BitVec.ofInt 32 (-1))) s = .ok s' →
+    LiveU s' ∧ WuKeepO s s' ∧ psiE s' ≤ psiE s ∧ (1 ≤ n → s.writeBus.queue ≠ [] → psiE s' < psiE s) := by
+  intro n
+  induction n with
+  | zero =>
+    intro i s s' _ h hl hr
+    simp only [List.range'_zero, List.foldlM, pure, Except.pure, Except.ok.injEq] at hr
+    subst hr; exact ⟨hl, WuKeepO.refl _, Nat.le_refl _, fun h1 => by omega⟩
+  | succ n ih =>
+    intro i s s' hlen h hl hr
+    simp only [List.range'_succ, List.foldlM, bind, Except.bind] at hr
+    split at hr
+    · cases hr
+    · rename_i s1 h1
+      obtain ⟨r1, lw, _, _⟩ := wuCycle_simO app a0 hp c s s1 nt i (by omega) h h1
+      obtain ⟨l1, k1, p1, _, q1⟩ := wuCycle_liveO app a0 hp c s s1 nt i (by omega) h hl h1
+      obtain ⟨l2, k2, p2, _⟩ := ih (i + 1) s1 s' (by omega) r1 l1 hr
+      exact ⟨l2, k1.trans k2, by omega, fun _ hne => by have := q1 hne; omega⟩
+
+theorem wusCycle_liveO (app : App) (a0 : Arch) (hp : ProgLd app a0) (c : Word) (nt : Nat) (s s' : State) (h : RelO app a0 c s nt)
+    (hl : LiveU s) (hr : wusCycle s = .ok s') :
+    LiveU s' ∧ WuKeepO s s' ∧ psiE s' ≤ psiE s ∧ (1 ≤ s.wus.length → s.writeBus.queue ≠ [] → psiE s' < psiE s) := by
+  unfold wusCycle at hr
+  rw [List.range_eq_range'] at hr
+  exact wus_liveO app a0 hp c nt s.wus.length 0 s s' (by omega) h hl hr
 
 end Proofs.Mvp60Ld
